@@ -4,10 +4,10 @@ POSTCONDITION TraceAccepted
 CHECK_DEADLOCK FALSE
 ALIAS Compact
 INVARIANTS
-  C11_SenderUndisturbed_KF
+  C11_SenderUndisturbed
   C11_Fits_KF
   C11_Homogeneous
-  C11_OversizeSkipped_KF
+  C11_OversizeSkipped
   C11_EffectNearLimit_KF
   C11_EorKept
   C11_Effect_KF
